@@ -1,12 +1,83 @@
 # Per-property claims; exec'd by gen_manifest.py (claim/na are defined there).
-claim("C01", "ast pattern rules + affine normal forms + union/dispatch extraction + reader-side fact extraction (vlsirtools sources)",
+claim("C01", "ast pattern rules + affine normal forms + union/dispatch extraction + reader-side fact extraction from the installed vlsirtools sources",
       "port-reference source kinds cover every connectable; exported slice/concat index and part-order conventions agree with the installed netlisters and with the importer; "
       "array per-element slices form the partition [k*w,(k+1)*w); bundle / instance-bundle reconnection is member-name faithful; no-connect replacement is private (also per array element); "
       "PortRef/BundleRef eq/hash well-formed; nested slice/concat resolution index maps; connection state only written through the owner API; per-element loops total; copies do not alias back-reference state.",
       "that the composition of the seven passes yields the designer's net partition for every design (heap-shaped, data dependent).",
       "DESIGN.md §4 C01")
+claim("C02", "default-pass-list liveness analysis (per-class done-set), call-graph effect analysis, dispatch exhaustiveness, guard inventory (one failing guard per fault class), affine bounds obligations",
+      "every checking pass of the default list is live (own done-set) and a live ConnTypes and Orphanage run after the last rewriting pass; checker dispatches are exhaustive; "
+      "a failing guard exists for each fault class of the statement (width mismatch, missing/extra connection, non-existent port/member in both directions, ownership, shared no-connect, circular instantiation, unnamed/clashing module, exporter leftovers); index bounds/emptiness; no dead guards.",
+      "sufficiency of the guards' predicates for faults hidden behind arbitrary nesting of slices, references and bundles.",
+      "DESIGN.md §4 C02")
+claim("C03", "affine normal forms and branch-wise index-map comparison; delegation-to-Python recognition (slice.indices / len(range)); union/decorator agreement",
+      "two-sided integer bounds and normalisation; slice normalisation delegated to slice.indices(parent width) with width = len(range(...)), emptiness and zero step rejected, bot/top per sign of step; "
+      "one memoised SliceInner; nested-slice/concat index maps incl. stride and direction; sliceable kinds = the five of the statement and width() covers them; width(Concat) = sum; parent width through the helper defined for every kind.",
+      "the numerical statement over all (w, start, stop, step) and nesting depths (that is enumeration against list slicing, i.e. execution; a dynamic witness is kept under witness/ but is not a check).",
+      "DESIGN.md §4 C03")
+claim("C04", "statement CFG + forward dataflow (fact pairing on every path), repo-wide writer scan, call-graph reachability for snapshot iteration",
+      "on every normal path through connect/replace/disconnect conns and the connectable's back-reference set are updated together with one per-port reference; nobody else writes either side; "
+      "one PortRef per (instance, port); loops that rewrite the set they walk iterate a snapshot; call/assignment/array forms funnel into connect.",
+      "absence of every electrical trace for every operation history (the clauses are the invariant the passes rely on, not the end-to-end statement).",
+      "DESIGN.md §4 C04")
+claim("C05", "reaching-definitions on the CFG (every definition of an inserted name must be a flatname(avoid=<that module>.namespace) result), dominance of the success test in flatname, writer scan",
+      "every Module.add in hdl21/elab inserts under a name that is fresh for that module; flatname returns only names it has checked; passes do not write module containers directly (except the paired removal of the object being flattened).",
+      "the second half of the property for fresh names (connections keep referring to their object) is object identity at run time, see C01.",
+      "DESIGN.md §4 C05")
+claim("C06", "statement-order / dominance checks in the exporter, dispatch exhaustiveness, table agreement with the installed reader (vlsirtools/primitives.py), module-state scan",
+      "definition-before-use ordering, memoisation and name-clash guard, signals ⊇ ports from the same objects, disjoint per-kind views, exhaustive instance-target dispatch with reader-agreeing ideal-primitive ports/parameters, one Connection per conns entry, per-call exporter state.",
+      "widths/exactly-once connection of every port for every design (consequences of C02's checks being live and sufficient); acceptance by from_proto and the netlisters as a whole.",
+      "DESIGN.md §4 C06")
+claim("C07", "finite decision-table extraction (io_for_checking over 4 valuations), dominance on the CFG (snapshot before mutation, freeze guard before stores), writer scans",
+      "pre-flattening snapshot is taken once, before any mutation, by its single writer; bundled-vs-flattened io choice table; freeze guard dominates every container store and has exactly two writers; id()-keyed global caches pin their key objects; global caches have one owning module.",
+      "equality of packages over all call sequences and groupings (interleavings of eight class-level caches, a global flattening cache and per-module snapshots).",
+      "DESIGN.md §4 C07")
 claim("C08", "statement CFG with exceptional edges + path-sensitive forward dataflow (pairing/typestate)",
       "pending sets are released on every exit (normal and exceptional) of a module visit and of generator.run; `done` is stored only after the body returned normally; "
       "a failed module visit is recorded per pass and the record is consulted and re-raised on entry, before the pass body can run again.",
       "that every unrelated design elaborates as in a fresh process (needs a frame condition / alias analysis over shared sub-modules); fault positions inside third-party code.",
       "DESIGN.md §4 C08")
+claim("C09", "CFG dataflow (lookup-before-body, store-after-body with correlated enable_cache guards), f-string/format analysis of the readable name, taint scan of name producers",
+      "cache lookup/store discipline and key eq/hash agreement; readable names render strings unambiguously; hashed names are a whole hashlib digest of JSON text with no address/salted-hash input; a generator does not rename a module another call produced; length limit.",
+      "collision freedom of the hashed naming branch over all parameter shapes (md5 and the JSON encoder on nested values).",
+      "DESIGN.md §4 C09")
+claim("C10", "finite-domain evaluation: decision table over 6 boolean atoms (all specified valuations), enum-function tables, XOR truth table of the flip step",
+      "PortDir.flipped table; direction/visibility decision table of the flattening helper against the table written from the statement; flip parity step and start; flattened names (leaf key, sub-scope prefix, '_' separators, final name); both sides agree on members; copies are independent.",
+      "depth-3 / fan-out-3 enumeration as such (the recursion is checked by its step, not unrolled).",
+      "DESIGN.md §4 C10")
+claim("C11", "typed field-access extraction per protobuf message (exporter writes ⊆ importer reads), inverse-table comparison, oneof-arm coverage, loop-direction analysis",
+      "prefix / port-direction / ideal-primitive / pulse-parameter tables are mutually inverse; slice top and concat order mirror the exporter; every message field and oneof arm the exporter writes is read by the importer; import order is package order.",
+      "to_proto(from_proto(P)) == P for all P.",
+      "DESIGN.md §4 C11")
+claim("C12", "unordered-to-ordered effect analysis: iterations over set-typed attributes whose body reaches order-sensitive effects through the call graph; taint scan of name producers",
+      "every iteration over an address/str-hashed set either has only commutative per-element effects or imposes a name-based order first; sort keys and generated names never derive from id()/hash()/repr.",
+      "byte identity of whole packages and netlists (also depends on protobuf and vlsirtools); order propagated through local accumulators is outside the rule by design.",
+      "DESIGN.md §4 C12")
+claim("C13", "dispatch exhaustiveness + arm-to-field table, float-detour taint scan on the value path, table agreement with the installed reader",
+      "every ToVlsirParam member has an arm with the right ParamValue field; None skipped; prefix table total and name preserving; no float()/Decimal(non-string) on the value paths; ideal primitives agree with vlsirtools on port order and required parameter names; to_scalar's shape.",
+      "digit exactness over all Decimals inside pydantic/decimal (library behaviour).",
+      "DESIGN.md §4 C13")
+claim("C14", "object-protocol rules: eq/hash through one normalisation, dunder return shapes, callee scan for raising rounding operations, sibling agreement of the six comparison operators",
+      "hash uses the exact value that eq compares; int()/float() are single conversions of the exact Decimal; the six comparisons are `three-way(self, other) <op> 0` over one helper with the right operator each and reach no round()/quantize(); shapes of neg/abs/add/subtract/scale.",
+      "exactness of + − × neg abs scale for all prefix pairs and 25-digit mantissas (decimal context precision, log10-based prefix choice): arithmetic, not shape.",
+      "DESIGN.md §4 C14")
+claim("C15", "constant-folding table evaluator over the PDK packages' declarative code (all 152 device-table entries, 3148 logic cells, exhaustive), walker effect analysis, selection/defaults/cache rules",
+      "walkers write only Instance.of; port compatibility of every (table entry, routed primitive) pair; selector/key shape agreement and descriptive miss errors; defaults-table and paramtype-dispatch completeness; cache read/write agreement; registry API; logic cells unique and well-formed; name templates.",
+      "sizing arithmetic (scale_param, diode area/perimeter), netlisting of compiled designs, compile-twice equality beyond the pass-through argument. 66 port-incompatible pairs are genuine and listed as known findings.",
+      "DESIGN.md §4 C15")
+claim("C16", "sibling agreement of the three leaf tests, guard inventory, uniqueness-by-construction of ':'-joined names (separator guards), lookup-order check",
+      "leaf kinds agree; unsupported constructs rejected; every ':'-joined component is checked free of ':'; ports copied unchanged and lower-level nets internal; child ports resolved through the parent's map first; every leaf yielded and reconnected by name.",
+      "equality of leaf-level net partitions for all hierarchies.",
+      "DESIGN.md §4 C16")
+claim("C17", "dispatch exhaustiveness with arm-to-field tables, isinstance-argument validity, attribute existence on narrowed receivers (classes with __getattr__ magic), data-class field coverage",
+      "every analysis/control/sweep/save-target variant has an arm exporting into the right SimInput field; no subscripted generics in isinstance; narrowed receivers only read attributes that exist; one pass in order; distinct generated names; testbench check before export; numeric fields through one float conversion of the right attribute; every data-class field is read.",
+      "value faithfulness of every exported field for all Sim objects.",
+      "DESIGN.md §4 C17")
+claim("C18", "reserved-name completeness from the class attribute tables, sibling agreement Module/Bundle, eviction and ordering checks in _add, dead-guard analysis",
+      "re-used names are evicted from every other per-kind container; reserved names cover every public class attribute; Module and Bundle agree on setattr/getattr/delattr/subclassing/freeze/decorator path; parent link, port view, validation before store; freeze guards have writers.",
+      "coherence after arbitrary histories beyond what these local invariants imply (the induction over setattr/add/get is our argument, not a machine proof).",
+      "DESIGN.md §4 C18")
+claim("C19", "dataflow/pattern rules on the generator bodies + the array-partition obligation of C01.3",
+      "Series: nser units, private net of width nser-1, offset concatenations (A,i)/(i,B) around the same net, parallel ports by name, corner cases; MosStack = Series over (d, s); Wrapper clones io(m) and wires same-named ports; element k of an array gets bits [k*w,(k+1)*w).",
+      "the exported net partition for every n and unit.",
+      "DESIGN.md §4 C19")
